@@ -412,9 +412,11 @@ def report_outcome(report, prop, out, measured):
         for distinct, generated in out.tlc:
             report.cov["states"] += distinct
             report.cov["transitions"] += generated
-        report.cov["traces_validated_against_impl"] += out.scripts + out.runs_accepted
-        report.cov["evaluations"] += out.compared
-        report.add_samples(out.samples, 2)
+        # the host check assigns these fields at its end: ours are added when the report is finished
+        pend = _pending(report)
+        pend["traces"] += out.scripts + out.runs_accepted
+        pend["evaluations"] += out.compared
+        pend["samples"] += out.samples[:2]
     for fid, n in out.known.items():
         for e in report.findings:
             if e["id"] == fid and e.get("status") == "open":
@@ -450,6 +452,30 @@ def replay_one(report, prop, bins, replay):
     report.cov["traces_validated_against_impl"] = 1
     report.cov["rule"] = "single replay (composed leg)"
     report.finish()
+
+
+RULE = (" + composed leg (spec/Sozu.tla): TLC-generated scripts, one per (quiescent state, operation) transition of the composed "
+        "model, executed on a real CommandHub with real worker threads and compared after every element (verdict, hub run states, "
+        "views of the main process and of every worker, saved configuration); seeded random runs of that system accepted by "
+        "Trace_Sozu.tla (canary rejected)")
+
+
+def _pending(report):
+    """Counts of this leg, merged into the coverage when the host check calls report.finish()."""
+    if not hasattr(report, "_compose_pending"):
+        report._compose_pending = {"traces": 0, "evaluations": 0, "samples": []}
+        inner = report.finish
+
+        def finish():
+            p = report._compose_pending
+            report.cov["traces_validated_against_impl"] += p["traces"]
+            report.cov["evaluations"] += p["evaluations"]
+            if p["traces"] and RULE not in report.cov["rule"]:
+                report.cov["rule"] += RULE
+            report.cov["samples"] = (p["samples"] + list(report.cov["samples"]))[:12]
+            inner()
+        report.finish = finish
+    return report._compose_pending
 
 
 def run_leg(report, tier, prop, replay=None):
